@@ -53,6 +53,9 @@ type AnteCell struct {
 	Sig         int   `json:"sig"`     // 0 good, 1 wrong key, 2 wrong sequence, 3 wrong chain id
 	Extra       []int `json:"extra,omitempty"`
 	MultiSigner bool  `json:"multi_signer,omitempty"`
+	// TwoSigners (multi-message cells): the messages after the first name a second account (the relayer voter) as their
+	// signer, and the transaction carries both signatures: it has two signers and must be refused in every mode
+	TwoSigners bool `json:"two_signers,omitempty"`
 }
 
 type AnteCase struct {
@@ -175,8 +178,13 @@ func (f *anteFixture) runAnteCell(c AnteCell) (*Failure, string, bool) {
 		urlsInTx = append(urlsInTx, typeURL(e))
 	}
 	var msgs []sdk.Msg
-	for _, u := range urlsInTx {
-		m, err := genericMsg(n, u, acc.Bech32())
+	second := world.NewAccount(world.DomRelayer, 1)
+	for ui, u := range urlsInTx {
+		who := acc.Bech32()
+		if c.TwoSigners && ui > 0 && len(c.Extra) > 0 {
+			who = second.Bech32()
+		}
+		m, err := genericMsg(n, u, who)
 		if err != nil {
 			return failf("fixture", "generic-message-failed", "%v", err), "", false
 		}
@@ -222,6 +230,10 @@ func (f *anteFixture) runAnteCell(c AnteCell) (*Failure, string, bool) {
 		x := world.NewAccount(world.DomStranger, 600)
 		o.ExtraSigner = &x
 	}
+	twoSigners := c.TwoSigners && len(c.Extra) > 0 && second.Bech32() != acc.Bech32()
+	if twoSigners {
+		o.ExtraSigner = &second
+	}
 	rawOpts := o
 	if rawOpts.TimeoutHeight == 0 && c.Timeout%4 == 0 {
 		// SignTx/Node.Tx treat 0 as "no timeout"
@@ -249,7 +261,7 @@ func (f *anteFixture) runAnteCell(c AnteCell) (*Failure, string, bool) {
 		}
 	}
 	timeoutOK := c.Timeout%4 != 1
-	admitted := c.Memo%3 == 0 && timeoutOK && sigOK && typesOK && !c.MultiSigner
+	admitted := c.Memo%3 == 0 && timeoutOK && sigOK && typesOK && !c.MultiSigner && !twoSigners
 	label := fmt.Sprintf("%s/%s/%s", modeNames[mode], signerNames[abs(c.Signer)%numSigners], shortURL(url))
 	desc := fmt.Sprintf("%v mode=%s signer=%s memo=%d timeout=%d sig=%d multiSigner=%v", urlsInTx, modeNames[mode], signerNames[abs(c.Signer)%numSigners], c.Memo%3, c.Timeout%4, c.Sig%4, c.MultiSigner)
 
@@ -494,6 +506,7 @@ func genAnteCell(t *rapid.T, multi bool) AnteCell {
 			c.Extra = append(c.Extra, rapid.IntRange(0, 13).Draw(t, "extraType"))
 		}
 		c.MultiSigner = rapid.IntRange(0, 5).Draw(t, "multiSigner") == 0
+		c.TwoSigners = !c.MultiSigner && rapid.IntRange(0, 5).Draw(t, "twoSigners") == 0
 		if rapid.IntRange(0, 9).Draw(t, "hiddenBlockMsg") == 0 {
 			// a later transaction of the block made of block messages only (or a block message beside a bridge message),
 			// signed by the block's proposer with the timeout the guard wants
@@ -519,7 +532,7 @@ func TestC10_Combos(t *testing.T) {
 			return c
 		},
 		Run:  runAnteCase,
-		Rule: "generated sequences of 4-24 crafted transactions on one live chain: single- and multi-message transactions (pairs/triples mixing allowed and forbidden types, the block message beside others), multi-signer transactions, memos, timeouts, signature faults, every signer class, all five modes (prepare through CheckTx + the real proposal builder, whose block message followed by the crafted transaction is then given back to ProcessProposal); evaluations count transactions",
+		Rule: "generated sequences of 4-24 crafted transactions on one live chain: single- and multi-message transactions (pairs/triples mixing allowed and forbidden types, the block message beside others), multi-signer transactions (a second signature, or messages naming two different signers), memos, timeouts, signature faults, every signer class, all five modes (prepare through CheckTx + the real proposal builder, whose block message followed by the crafted transaction is then given back to ProcessProposal); evaluations count transactions",
 	})
 }
 
